@@ -38,7 +38,10 @@ def _mix_jobs(seed, quick):
         s = seed * 1009 + k
         jobs += [('sn', s, 'S0', k % 2 == 1), ('sn', s + 500, 'S1', k % 2 == 0), ('sn', s + 900, 'S2', k % 2 == 0),
                  ('mps', s, 'M0', k % 2 == 1), ('mps', s + 500, 'M1', k % 2 == 0),
-                 ('odimo', s, 'M0', k % 2 == 1), ('odimo', s + 500, 'M1', k % 2 == 0)]
+                 ('odimo', s, 'M0', k % 2 == 1), ('odimo', s + 500, 'M1', k % 2 == 0),
+                 # per-channel MPS with the 0-bit precision (residual model: a fully pruned branch), SuperNet with hard Gumbel sampling
+                 ('mps0', s, 'M2', True), ('mps0', s + 500, ['M0', 'M1'][k % 2], True),
+                 ('sng', s, 'S0', k % 2 == 1), ('sng', s + 500, 'S1', k % 2 == 0), ('sng', s + 900, 'S2', True)]
     return jobs
 
 
@@ -54,7 +57,7 @@ def run(ctx):
     ctx.rule = ('(a) PIT: grammar architectures (1-D causal and 2-D; conv/depthwise/residual/concat/pool/flatten/linear heads) x all applicable built-in specs as a dictionary '
                 '+ one single specification; trainable mask parameters seeded with dyadic values (styles rand / with exact zeros / small / big); per network: value, autograd '
                 'gradient of every trainable element, +1 magnitude bump of every element, weight perturbation, other input batch + eval mode, one raised and one lowered '
-                'parameter vector, all masks +-1, trainability switches (train_net_only / train_nas_only / train_net_and_nas / train_features|rf|dilation := False) applied at random with cost and gradients of the still-trainable parameters unchanged (one persists through the float64 comparison with the model), every metric identical on wrappers traced with input_example of 1 and of 2..8 samples, the cost specification re-assigned (same dict, dict -> single -> dict, single wrappers) while the masks are away from 1 and compared with a fresh wrapper carrying identical masks and, re-opened, with the original model, the metrics re-read in two other orders; (a2) the same with full_cost=True and 1-2 cost-bearing layers excluded by name (costed with their static sizes), one single-specification wrapper per metric; (b) fixed SuperNet (S0, S1, S2 = Linear layers on (N, T, F) inputs) / MPS (M0, M1; per-layer and per-channel) / ODiMO_MPS (defaults) models with seeded coefficients, each also traced with input_example of 1 and of 2..8 samples; value and gradients again after forward -> export() / summary() / get_cost / export()+summary() without a forward in between; MPS (hard_softmax=True and eval()) / ODiMO (eval()) with one-hot sampled coefficients, seeded and extreme (a precision chosen by no channel): finite cost and gradients for every spec. '
+                'parameter vector, all masks +-1, trainability switches (train_net_only / train_nas_only / train_net_and_nas / train_features|rf|dilation := False) applied at random with cost and gradients of the still-trainable parameters unchanged (one persists through the float64 comparison with the model), every metric identical on wrappers traced with input_example of 1 and of 2..8 samples, the cost specification re-assigned (same dict, dict -> single -> dict, single wrappers) while the masks are away from 1 and compared with a fresh wrapper carrying identical masks and, re-opened, with the original model, the metrics re-read in two other orders; (a2) the same with full_cost=True and 1-2 cost-bearing layers excluded by name (costed with their static sizes), one single-specification wrapper per metric; (b) fixed SuperNet (S0, S1, S2 = Linear layers on (N, T, F) inputs) / MPS (M0, M1; per-layer and per-channel) / ODiMO_MPS (defaults) models with seeded coefficients, each also traced with input_example of 1 and of 2..8 samples; value and gradients again after forward -> export() / summary() / get_cost / export()+summary() without a forward in between; MPS (hard_softmax=True and eval()) / ODiMO (eval()) with one-hot sampled coefficients, seeded and extreme (a precision chosen by no channel): finite cost and gradients for every spec; per-channel MPS with the 0-bit precision (0, 2, 4, 8) incl. a residual model whose branch convolution is pruned channel by channel up to completely, under soft / hard / eval sampling: finite non-negative cost, finite gradients, value == sum theta_in * mean(theta_w) * cost_fn; SuperNet with gumbel_softmax=True + hard_softmax=True in training mode, 10 draws: cost == sum theta_i cost_i, d cost / d theta_i == cost_i, d cost / d alpha == straight-through reference. '
                 'non-trivial = at least one searchable layer and one trainable non keep-alive parameter element; distinct = distinct (architecture, parameter values) / (model, seed)')
     from concurrent.futures import ProcessPoolExecutor
     import multiprocessing as mp
@@ -86,12 +89,14 @@ def run(ctx):
     ctx.extra['pit_networks'] = len(nets) - skipped
     # ---------------- (b) mixtures
     for o in mixes:
-        ctx.case((o['method'], o['model'], o['seed']), nontrivial=True, kind='%s:%s' % (o['method'], o['model']),
+        ctx.case((o.get('kind', o['method']), o['model'], o['seed']), nontrivial=True, kind='%s:%s' % (o.get('kind') or o['method'], o['model']),
                  sample={'method': o['method'], 'model': o['model'], 'cost': {k: v.get('value') for k, v in o['specs'].items()}} if o['seed'] % 7 == 0 else None)
+        if o.get('sign_opposed'):
+            ctx.dist['gradient-non-zero-but-opposed-to-finite-difference:%s' % o.get('kind', o['method'])] += len(o['sign_opposed'])
         for r in o.get('observer_raised', []):
             ctx.dist['observer-raised:%s:%s' % (o['method'], r.split(':')[0])] += 1
         for key, info in o['fails']:
-            args = {'kind': {'SuperNet': 'sn', 'MPS': 'mps', 'ODiMO_MPS': 'odimo'}[o['method']], 'seed': o['seed'], 'model': o['model'],
+            args = {'kind': o.get('kind') or {'SuperNet': 'sn', 'MPS': 'mps', 'ODiMO_MPS': 'odimo'}[o['method']], 'seed': o['seed'], 'model': o['model'],
                     'flag': o.get('full_cost', o.get('per_channel', o.get('as_dict')))}
             fails.append(('%s' % key if key.startswith('exception:') else '%s:%s' % (o['method'], key), args, {'detail': info, 'trace': o.get('trace')}))
     ctx.extra['mixture_models'] = len(mixes)
@@ -253,7 +258,7 @@ def replay(r):
               'monotone in |parameter|, open masks == original cost')
         print('failing sentences:', json.dumps(o['fails'], default=jdefault)[:3000], o.get('trace', ''))
         return 0 if not o['fails'] else 1
-    if c.get('kind') in ('sn', 'mps', 'odimo', 'SuperNet', 'MPS', 'ODiMO_MPS') and 'seed' in c and 'flag' in c:
+    if c.get('kind') in ('sn', 'sng', 'mps', 'mps0', 'odimo', 'SuperNet', 'MPS', 'ODiMO_MPS') and 'seed' in c and 'flag' in c:
         kind = {'SuperNet': 'sn', 'MPS': 'mps', 'ODiMO_MPS': 'odimo'}.get(c['kind'], c['kind'])
         o = cm.mix_worker((kind, c['seed'], c['model'], c['flag']))
         print('replayed on the implementation: cost', {k: v.get('value') for k, v in o['specs'].items()})
